@@ -173,7 +173,40 @@ type Built struct {
 	KVs     []*inject.KV
 	closers []func()
 	mems    []*memory.Storage // every harness-created memory store of the tree (leaves and caches)
+	// Larges are the large (zip) stores of the blobpacked nodes of the tree as first built:
+	// enumerating one shows whether packing really happened.
+	Larges []blobserver.Storage
+	// Siblings are the second namespaces created over the same master as a namespace node
+	// ("sibling": "yes"); each starts holding SiblingBlobs() and nothing else.
+	Siblings []blobserver.Storage
+	// Hidden stores blobs where the tree must NOT show them: directly into a backend of a replica
+	// node that is outside its read set ("readBackends").  Such blobs are absent for every reader
+	// of the tree until they are received through it.  nil when the tree has no such place.
+	Hidden func(b []Blob) error
+	hidden []preloadFn
 }
+
+// kidRe is a child slot of a composite: loader prefix + how to re-create the child (nil: keep).
+type kidRe struct {
+	prefix string
+	re     reopenFn
+}
+
+func reKids(ld *Loader, kids []kidRe) error {
+	for _, k := range kids {
+		if k.re == nil {
+			continue
+		}
+		ns, err := k.re()
+		if err != nil {
+			return err
+		}
+		ld.Set(k.prefix, ns)
+	}
+	return nil
+}
+
+func onDisk(kvKind string) bool { return kvKind == "leveldb" || kvKind == "kv" || kvKind == "sqlite" }
 
 // ReleaseMemory empties every memory store of the tree.  blobserver.Receive registers each
 // storage it ever saw in a process-global hub map, so a finished tree stays reachable; a check
@@ -204,7 +237,42 @@ func (b *Built) Close() {
 type Env struct {
 	Dir  string       // scratch directory for on-disk stores
 	Plan *inject.Plan // when non-nil, leaves and KVs are wrapped with it
-	n    int
+	// NestedPreload (opt-in): Built.Preload also fills the read-only parts of NESTED nodes (an
+	// overlay's lower layer or a union's subsets below the root), wherever the parent shows its
+	// child's content unchanged: replica without a distinct read set, cond (its read store),
+	// overlay (both layers), proxycache (origin) and union.  It is not propagated through shard
+	// (routing decides visibility), namespace (inventory decides), encrypt and blobpacked.
+	// Without it only the root's own read-only parts are filled (the original behaviour).
+	NestedPreload bool
+	// DeepReopen (opt-in): Built.Reopen is also offered for composite trees.  A node is re-created
+	// (Close when it has one, then CreateStorage with the same config) after its reopenable
+	// children were re-created; memory children are kept (they are the "disk" of the history).
+	// Nodes whose own state is a volatile memory KV (blobpacked meta, overlay deleted, namespace
+	// inventory of kind memory) and namespace/encrypt over an on-disk KV (no Close method, the
+	// file lock stays held) make the tree non-reopenable, as before.
+	DeepReopen bool
+	n          int
+}
+
+// joinPre runs every non-nil preload on the same blobs.
+func joinPre(ps ...preloadFn) preloadFn {
+	var live []preloadFn
+	for _, p := range ps {
+		if p != nil {
+			live = append(live, p)
+		}
+	}
+	if len(live) == 0 {
+		return nil
+	}
+	return func(bl []Blob) error {
+		for _, p := range live {
+			if err := p(bl); err != nil {
+				return err
+			}
+		}
+		return nil
+	}
 }
 
 func (e *Env) fresh(label string) string {
@@ -265,6 +333,9 @@ func Build(e *Env, spec *Spec) (*Built, error) {
 		return nil, err
 	}
 	b.S, b.Caps, b.Reopen, b.Preload = s, caps, nil, preload
+	if h := joinPre(b.hidden...); h != nil {
+		b.Hidden = h
+	}
 	if reopen != nil {
 		b.Caps.Reopen = true
 		b.Reopen = func() (blobserver.Storage, error) {
@@ -367,14 +438,15 @@ func (b *Built) build(e *Env, sp *Spec) (blobserver.Storage, Caps, reopenFn, pre
 		if len(kids) == 0 {
 			kids = []*Spec{{Kind: "memory"}, {Kind: "memory"}}
 		}
-		small, sc, _, _, err := b.build(e, kids[0])
+		small, sc, smallRe, _, err := b.build(e, kids[0])
 		if err != nil {
 			return nil, full, nil, nil, err
 		}
-		large, lc, _, _, err := b.build(e, kids[1])
+		large, lc, largeRe, _, err := b.build(e, kids[1])
 		if err != nil {
 			return nil, full, nil, nil, err
 		}
+		b.Larges = append(b.Larges, large)
 		if !lc.SubFetch {
 			return nil, full, nil, nil, errors.New("blobpacked large store needs SubFetch")
 		}
@@ -392,10 +464,25 @@ func (b *Built) build(e *Env, sp *Spec) (blobserver.Storage, Caps, reopenFn, pre
 		if err != nil {
 			return nil, full, nil, nil, err
 		}
-		b.closers = append(b.closers, func() { closeSto(s) })
+		holder := &s
+		b.closers = append(b.closers, func() { closeSto(*holder) })
 		// loose blobs are removed from small; packed ones are only marked in meta
 		bpCaps := Caps{Receive: true, Remove: sc.Remove, SubFetch: true, RemoveMixed: sc.RemoveMixed || !sc.Remove}
-		return s, bpCaps, nil, nil, nil
+		var re reopenFn
+		if e.DeepReopen && onDisk(sp.str("meta", "memory")) {
+			re = func() (blobserver.Storage, error) {
+				closeSto(*holder)
+				if err := reKids(ld, []kidRe{{"/small/", smallRe}, {"/large/", largeRe}}); err != nil {
+					return nil, err
+				}
+				ns, err := b.create("blobpacked", ld, conf)
+				if err == nil {
+					*holder = ns
+				}
+				return ns, err
+			}
+		}
+		return s, bpCaps, re, nil, nil
 
 	case "encrypt":
 		ld := NewLoader()
@@ -403,11 +490,11 @@ func (b *Built) build(e *Env, sp *Spec) (blobserver.Storage, Caps, reopenFn, pre
 		if len(kids) == 0 {
 			kids = []*Spec{{Kind: "memory"}, {Kind: "memory"}}
 		}
-		blobs, _, _, _, err := b.build(e, kids[0])
+		blobs, _, blobsRe, _, err := b.build(e, kids[0])
 		if err != nil {
 			return nil, full, nil, nil, err
 		}
-		meta, _, _, _, err := b.build(e, kids[1])
+		meta, _, metaRe, _, err := b.build(e, kids[1])
 		if err != nil {
 			return nil, full, nil, nil, err
 		}
@@ -436,6 +523,11 @@ func (b *Built) build(e *Env, sp *Spec) (blobserver.Storage, Caps, reopenFn, pre
 		var re reopenFn
 		if sp.str("meta", "memory") == "memory" {
 			re = func() (blobserver.Storage, error) {
+				if e.DeepReopen {
+					if err := reKids(ld, []kidRe{{"/enc-blobs/", blobsRe}, {"/enc-meta/", metaRe}}); err != nil {
+						return nil, err
+					}
+				}
 				c2 := cloneConf(conf)
 				if kv == nil {
 					c2["metaIndex"] = map[string]any{"type": "memory"}
@@ -450,11 +542,15 @@ func (b *Built) build(e *Env, sp *Spec) (blobserver.Storage, Caps, reopenFn, pre
 		var prefixes []any
 		caps := Caps{Receive: true}
 		anyRemove, allRemove := false, true
+		var kidPre []preloadFn
+		var kidsRe []kidRe
 		for i, k := range sp.Kids {
-			ks, kc, _, _, err := b.build(e, k)
+			ks, kc, kre, kp, err := b.build(e, k)
 			if err != nil {
 				return nil, full, nil, nil, err
 			}
+			kidPre = append(kidPre, kp)
+			kidsRe = append(kidsRe, kidRe{fmt.Sprintf("/k%d/", i), kre})
 			if kc.Remove {
 				anyRemove = true
 			} else {
@@ -479,10 +575,27 @@ func (b *Built) build(e *Env, sp *Spec) (blobserver.Storage, Caps, reopenFn, pre
 			if n := sp.num("readFirst", 0); n > 0 && n <= len(prefixes) {
 				// distinct read set: the first n backends (every backend holds every blob when minWrites = all)
 				conf["readBackends"] = prefixes[:n]
+				if n < len(prefixes) {
+					last, _ := ld.GetStorage(prefixes[len(prefixes)-1].(string))
+					b.hidden = append(b.hidden, func(bl []Blob) error { return storeAll(last, bl) })
+				}
 			}
 		}
 		s, err := b.create(sp.Kind, ld, conf)
-		return s, caps, nil, nil, err
+		var pre preloadFn
+		if e.NestedPreload && sp.Kind == "replica" && sp.num("readFirst", 0) == 0 {
+			pre = joinPre(kidPre...)
+		}
+		var re reopenFn
+		if e.DeepReopen {
+			re = func() (blobserver.Storage, error) {
+				if err := reKids(ld, kidsRe); err != nil {
+					return nil, err
+				}
+				return b.create(sp.Kind, ld, conf)
+			}
+		}
+		return s, caps, re, pre, err
 
 	case "cond":
 		// write: isSchema -> replica[bs, extra], else bs; read bs; remove bs
@@ -491,11 +604,14 @@ func (b *Built) build(e *Env, sp *Spec) (blobserver.Storage, Caps, reopenFn, pre
 		if len(kids) == 0 {
 			kids = []*Spec{{Kind: "memory"}, {Kind: "memory"}}
 		}
-		bs, bc, _, _, err := b.build(e, kids[0])
+		bs, bc, bsRe, bsPre, err := b.build(e, kids[0])
 		if err != nil {
 			return nil, full, nil, nil, err
 		}
-		extra, _, _, _, err := b.build(e, kids[1])
+		if !e.NestedPreload {
+			bsPre = nil
+		}
+		extra, _, extraRe, _, err := b.build(e, kids[1])
 		if err != nil {
 			return nil, full, nil, nil, err
 		}
@@ -517,7 +633,21 @@ func (b *Built) build(e *Env, sp *Spec) (blobserver.Storage, Caps, reopenFn, pre
 			caps.RemoveMixed = bc.RemoveMixed
 		}
 		s, err := b.create("cond", ld, conf)
-		return s, caps, nil, nil, err
+		var re reopenFn
+		if e.DeepReopen {
+			re = func() (blobserver.Storage, error) {
+				if err := reKids(ld, []kidRe{{"/bs/", bsRe}, {"/extra/", extraRe}}); err != nil {
+					return nil, err
+				}
+				rep, err := b.create("replica", ld, jsonconfig.Obj{"backends": []any{"/bs/", "/extra/"}})
+				if err != nil {
+					return nil, err
+				}
+				ld.Set("/rep/", rep)
+				return b.create("cond", ld, conf)
+			}
+		}
+		return s, caps, re, bsPre, err
 
 	case "overlay":
 		ld := NewLoader()
@@ -525,11 +655,11 @@ func (b *Built) build(e *Env, sp *Spec) (blobserver.Storage, Caps, reopenFn, pre
 		if len(kids) == 0 {
 			kids = []*Spec{{Kind: "memory"}, {Kind: "memory"}}
 		}
-		lower, _, _, _, err := b.build(e, kids[0])
+		lower, lc, lowerRe, lowerPre, err := b.build(e, kids[0])
 		if err != nil {
 			return nil, full, nil, nil, err
 		}
-		upper, uc, _, _, err := b.build(e, kids[1])
+		upper, uc, upperRe, upperPre, err := b.build(e, kids[1])
 		if err != nil {
 			return nil, full, nil, nil, err
 		}
@@ -544,8 +674,34 @@ func (b *Built) build(e *Env, sp *Spec) (blobserver.Storage, Caps, reopenFn, pre
 		}
 		conf := jsonconfig.Obj{"lower": "/lower/", "upper": "/upper/", "deleted": map[string]any(kvc)}
 		s, err := b.create("overlay", ld, conf)
-		pre := func(bl []Blob) error { return storeAll(lower, bl) }
-		return s, Caps{Receive: true, Remove: uc.Remove, RemoveMixed: uc.RemoveMixed}, nil, pre, err
+		var pre preloadFn = func(bl []Blob) error { return storeAll(lower, bl) }
+		if e.NestedPreload {
+			if !lc.Receive && lowerPre != nil {
+				pre = lowerPre // a read-only lower layer (union) is filled by its own preload
+			}
+			pre = joinPre(pre, upperPre)
+		}
+		var re reopenFn
+		if err == nil {
+			holder := &s
+			b.closers = append(b.closers, func() { closeSto(*holder) })
+			if e.DeepReopen && onDisk(sp.str("deleted", "memory")) {
+				re = func() (blobserver.Storage, error) {
+					closeSto(*holder)
+					if err := reKids(ld, []kidRe{{"/lower/", lowerRe}, {"/upper/", upperRe}}); err != nil {
+						return nil, err
+					}
+					ns, err := b.create("overlay", ld, conf)
+					if err == nil {
+						*holder = ns
+						// the preload closure writes into the lower layer of the first incarnation only;
+						// lower is never re-created when it is a memory store, which is what C01 uses
+					}
+					return ns, err
+				}
+			}
+		}
+		return s, Caps{Receive: true, Remove: uc.Remove, RemoveMixed: uc.RemoveMixed}, re, pre, err
 
 	case "namespace":
 		ld := NewLoader()
@@ -582,6 +738,7 @@ func (b *Built) build(e *Env, sp *Spec) (blobserver.Storage, Caps, reopenFn, pre
 			if err := storeAll(sib, SiblingBlobs()); err != nil {
 				return nil, full, nil, nil, err
 			}
+			b.Siblings = append(b.Siblings, sib)
 		}
 		return s, Caps{Receive: true, Remove: true}, nil, nil, nil
 
@@ -591,7 +748,7 @@ func (b *Built) build(e *Env, sp *Spec) (blobserver.Storage, Caps, reopenFn, pre
 		if len(kids) == 0 {
 			kids = []*Spec{{Kind: "memory"}}
 		}
-		origin, oc, _, _, err := b.build(e, kids[0])
+		origin, oc, originRe, originPre, err := b.build(e, kids[0])
 		if err != nil {
 			return nil, full, nil, nil, err
 		}
@@ -599,39 +756,88 @@ func (b *Built) build(e *Env, sp *Spec) (blobserver.Storage, Caps, reopenFn, pre
 		cache := memory.NewCache(int64(sp.num("cacheBytes", 1<<20)))
 		b.mems = append(b.mems, cache)
 		ld.Set("/cache/", cache)
-		s, err := b.create("proxycache", ld, jsonconfig.Obj{"origin": "/origin/", "cache": "/cache/"})
-		return s, Caps{Receive: true, Remove: oc.Remove, RemoveMixed: oc.RemoveMixed}, nil, nil, err
+		pcConf := jsonconfig.Obj{"origin": "/origin/", "cache": "/cache/"}
+		s, err := b.create("proxycache", ld, pcConf)
+		if !e.NestedPreload {
+			originPre = nil
+		}
+		var re reopenFn
+		if e.DeepReopen {
+			re = func() (blobserver.Storage, error) {
+				if err := reKids(ld, []kidRe{{"/origin/", originRe}}); err != nil {
+					return nil, err
+				}
+				return b.create("proxycache", ld, pcConf)
+			}
+		}
+		return s, Caps{Receive: true, Remove: oc.Remove, RemoveMixed: oc.RemoveMixed}, re, originPre, err
 
 	case "union":
 		ld := NewLoader()
 		var prefixes []any
 		var subs []blobserver.Storage
+		var kidsRe []kidRe
+		var subPre []preloadFn // how subset i is filled: directly, or (read-only subset) by its own preload
 		for i, k := range sp.Kids {
-			ks, _, _, _, err := b.build(e, k)
+			ks, kc, kre, kp, err := b.build(e, k)
 			if err != nil {
 				return nil, full, nil, nil, err
 			}
+			kidsRe = append(kidsRe, kidRe{fmt.Sprintf("/u%d/", i), kre})
 			p := fmt.Sprintf("/u%d/", i)
 			ld.Set(p, ks)
 			prefixes = append(prefixes, p)
 			subs = append(subs, ks)
+			fill := preloadFn(func(bl []Blob) error { return storeAll(ks, bl) })
+			if e.NestedPreload && kp != nil {
+				if !kc.Receive {
+					fill = kp
+				} else {
+					// a writable subset with read-only parts of its own: fill both, alternating
+					direct, turn := fill, 0
+					fill = func(bl []Blob) error {
+						for _, x := range bl {
+							turn++
+							f := direct
+							if turn%2 == 0 {
+								f = kp
+							}
+							if err := f([]Blob{x}); err != nil {
+								return err
+							}
+						}
+						return nil
+					}
+				}
+			}
+			subPre = append(subPre, fill)
 		}
-		s, err := b.create("union", ld, jsonconfig.Obj{"subsets": prefixes})
+		uConf := jsonconfig.Obj{"subsets": prefixes}
+		s, err := b.create("union", ld, uConf)
+		var re reopenFn
+		if e.DeepReopen {
+			re = func() (blobserver.Storage, error) {
+				if err := reKids(ld, kidsRe); err != nil {
+					return nil, err
+				}
+				return b.create("union", ld, uConf)
+			}
+		}
 		pre := func(bl []Blob) error {
 			// overlapping distribution: blob i goes to subset i%n and, every third, also to the next
 			for i, x := range bl {
-				if err := storeAll(subs[i%len(subs)], []Blob{x}); err != nil {
+				if err := subPre[i%len(subs)]([]Blob{x}); err != nil {
 					return err
 				}
 				if i%3 == 0 {
-					if err := storeAll(subs[(i+1)%len(subs)], []Blob{x}); err != nil {
+					if err := subPre[(i+1)%len(subs)]([]Blob{x}); err != nil {
 						return err
 					}
 				}
 			}
 			return nil
 		}
-		return s, Caps{}, nil, pre, err
+		return s, Caps{}, re, pre, err
 	}
 	return nil, full, nil, nil, fmt.Errorf("unknown backend kind %q", sp.Kind)
 }
